@@ -418,7 +418,7 @@ def rstForAck (s : Tcb) (seg : Hdr) : Hdr := ((s.headerBuilder seg.ack).withRst)
 /-- block 1: "Check that the sequence number is valid" -/
 def seqCheck (s : Tcb) (seg : Hdr) (textLen : Seq) : B :=
   match s.state with
-  | .SynSent | .Closing => .ok (s, none)
+  | .SynSent => .ok (s, none)
   | _ =>
     match s.isSeqOk textLen seg.seq seg.ctl.syn seg.ctl.fin with
     | .error e => .error e
